@@ -31,6 +31,8 @@ pub enum Case {
         #[serde(default)]
         via: u8,
     },
+    /// two requests in a row on one chip (register-file model): the second one is judged
+    PowerSeq { chip: String, first: i32, second: i32, hz: u32 },
     Timeout { chip: String, symbols: u16 },
     Adapter { chip: String, sf: usize, bw: usize, ms: u32 },
     Status126 { raw: [u8; 3] },
@@ -280,6 +282,18 @@ pub fn eval_power_via(chip: &str, request: i32, hz: u32, via: u8, env: &Env) -> 
     v
 }
 
+/// Two power requests in a row on the same chip: what an earlier request left in the PA registers (read-modify-write
+/// sequences see it) must not change what the later one programs.
+pub fn eval_power_seq(chip: &str, first: i32, second: i32, hz: u32) -> Vec<(String, String)> {
+    use crate::chips::{Sx126xChip, Sx127xChip};
+    let env = if is126(chip) { Env::new(Box::new(Sx126xChip::new())) } else { Env::new(Box::new(Sx127xChip::new(chip.starts_with("sx1272")))) };
+    let _ = eval_power_via(chip, first, hz, 0, &env);
+    eval_power_via(chip, second, hz, 0, &env)
+        .into_iter()
+        .map(|(sig, what)| (format!("{sig}|after-another-request"), format!("after a request for {first} dBm on the same chip: {what}")))
+        .collect()
+}
+
 // ---------------------------------------------------------------- (c) symbol timeout
 
 pub fn eval_timeout(chip: &str, symbols: u16, env: &Env) -> Vec<(String, String)> {
@@ -465,6 +479,7 @@ pub fn eval(c: &Case) -> Vec<(String, String)> {
             }
             eval_power_via(chip, *request, *hz, *via, &env)
         }
+        Case::PowerSeq { chip, first, second, hz } => eval_power_seq(chip, *first, *second, *hz),
         Case::Timeout { chip, symbols } => eval_timeout(chip, *symbols, &env),
         Case::Adapter { chip, sf, bw, ms } => eval_adapter(chip, *sf, *bw, *ms),
         Case::Status126 { raw } => {
@@ -561,6 +576,17 @@ pub fn run(tier: Tier, replay: Option<&str>) {
                         ctx.tick(1);
                     }
                 }
+            }
+        }
+    }
+    // (b2) two requests in a row on one chip
+    for chip in chips {
+        for first in [-128i32, -5, -4, -1, 0, 2, 10, 14, 15, 17, 18, 20, 22, 127] {
+            for second in -10..=25i32 {
+                let v = eval_power_seq(chip, first, second, 868_100_000);
+                rec(Case::PowerSeq { chip: chip.into(), first, second, hz: 868_100_000 }, v);
+                ctx.tick(1);
+                nontrivial.fetch_add(1, Ordering::Relaxed);
             }
         }
     }
@@ -663,7 +689,7 @@ pub fn run(tier: Tier, replay: Option<&str>) {
     let coverage = json!({
         "evaluations": ctx.evals(),
         "distinct_nontrivial": nontrivial.load(Ordering::Relaxed),
-        "rule": "(a) set_channel on SX126x and SX127x for every 100 Hz of the LoRaWAN bands plus a 1 kHz stride over 137-1020 MHz (thorough: every 1 Hz of 137-1020 MHz), PLL word decoded with the datasheet formula; (b) set_tx_power_and_ramp_time for every request -128..127 and i32 extremes x {SX1261, SX1262, STM32WL LP/HP, SX1276 RFO/BOOST, SX1272 RFO/BOOST} x 3 bands, PA registers decoded with the datasheet tables, and (SX126x) requests -20..30 also through LoRa::prepare_for_tx and LoRa::continuous_wave; (c) every symbol timeout 0..65535 through do_rx, decoded mantissa/exponent (SX126x) or 10-bit value (SX127x); (d) every (SF,BW) x margin 0..1000 ms through LorawanRadio::setup_rx + rx_single; (e) every raw SX126x (RssiPkt, SnrPkt[, SignalRssi]) value and every SX127x (SNR, RSSI, band, chip) register value through get_rx_packet_status, and the SX127x conversion over carrier frequencies on both sides of every band edge and of the 525 MHz LF/HF line. Every tuple is a distinct input",
+        "rule": "(a) set_channel on SX126x and SX127x for every 100 Hz of the LoRaWAN bands plus a 1 kHz stride over 137-1020 MHz (thorough: every 1 Hz of 137-1020 MHz), PLL word decoded with the datasheet formula; (b) set_tx_power_and_ramp_time for every request -128..127 and i32 extremes x {SX1261, SX1262, STM32WL LP/HP, SX1276 RFO/BOOST, SX1272 RFO/BOOST} x 3 bands, PA registers decoded with the datasheet tables, and (SX126x) requests -20..30 also through LoRa::prepare_for_tx and LoRa::continuous_wave; pairs of requests in a row on one register-file chip model (14 first x 36 second values per chip), the second one decoded; (c) every symbol timeout 0..65535 through do_rx, decoded mantissa/exponent (SX126x) or 10-bit value (SX127x); (d) every (SF,BW) x margin 0..1000 ms through LorawanRadio::setup_rx + rx_single; (e) every raw SX126x (RssiPkt, SnrPkt[, SignalRssi]) value and every SX127x (SNR, RSSI, band, chip) register value through get_rx_packet_status, and the SX127x conversion over carrier frequencies on both sides of every band edge and of the 525 MHz LF/HF line. Every tuple is a distinct input",
         "samples": [
             serde_json::to_value(Case::Freq { chip: "sx1262".into(), hz: 868_100_000 }).unwrap(),
             serde_json::to_value(Case::Power { chip: "sx1276-boost".into(), request: 20, hz: 868_100_000, via: 0 }).unwrap(),
